@@ -53,10 +53,19 @@ Count    == post' = IF ndmg > 0 THEN post + 1 ELSE post
 (* the writer: consensus.BaseWAL *)
 AWrite(k, h) == LET r == Write(w, k, h, Sz(k)) IN Do(r.st, <<"w", k, h, r.res>>)
 ASync(k, h)  == LET r == WriteSync(w, k, h, Sz(k)) IN Do(r.st, <<"ws", k, h, r.res>>)
+(* the ticker's head-size check INSIDE one Write / WriteSync, behind group write g of   *)
+(* the message (only where it rotates: otherwise this is the plain write)               *)
+AWriteT(k, h, g, sync) ==
+  /\ Clean /\ (sync \/ Unsynced) /\ Sz(k) <= MaxMsg
+  /\ LET r == WriteTick(w, k, h, Sz(k), g, sync) IN
+       r.tick = "rot" /\ Do(r.st, <<IF sync THEN "wst" ELSE "wt", k, h, g, Cmp(r.mid), r.tick, "ok">>)
 Writer ==
   /\ Clean \/ Later
   /\ \/ \E h \in Heights : (Unsynced /\ AWrite("eh", h)) \/ ASync("eh", h)
      \/ \E k \in Kinds   : (Unsynced /\ AWrite(k, 0)) \/ ASync(k, 0)
+     \/ \E g \in 1..WritesPerRecord, sync \in BOOLEAN :
+          \/ \E h \in Heights : AWriteT("eh", h, g, sync)
+          \/ \E k \in Kinds   : AWriteT(k, 0, g, sync)
      \/ w.buf # <<>> /\ Do(Flush(w), <<"fl", "ok">>)
      \/ Do(Start(Stop(w), 1), <<"restart", "ok">>)
   /\ UNCHANGED <<lost, ndmg>> /\ Count
@@ -110,9 +119,10 @@ View == <<w, lost, ndmg, post>>
 RECURSIVE Upto(_, _)
 Upto(a, b) == IF a > b THEN <<>> ELSE <<a>> \o Upto(a + 1, b)
 Durable == ndmg = 0 =>
-   RealIds(Stream(w, 1) \o w.buf) = SelectSeq(Upto(1, w.next - 1), LAMBDA i : i \notin lost)
+   RealIds(AllRecs(w)) = SelectSeq(Upto(1, w.next - 1), LAMBDA i : i \notin lost)
 
-Inv == /\ OrderKept(w) /\ Durable
+FilesAtFrame == FilesStartAtFrame(w)
+Inv == /\ OrderKept(w) /\ Durable /\ FilesAtFrame
        /\ ReadExact(w) /\ FlipsReported(w) /\ RepairExact(w)
        /\ \A h \in Heights, ign \in BOOLEAN :
              SearchSound(w, h, ign) /\ SearchDet(w, h, ign) /\ SearchComplete(w, h, ign)
@@ -125,8 +135,17 @@ DPAgrees == \A h \in Heights, ign \in BOOLEAN : SearchDP(w, h, ign) = Search(w, 
 (* order: completeness of the search WITHOUT the writer's discipline                   *)
 CompleteAnyOrder == Missed(w, Heights) = {}
 
+(* companion model (WritesPerRecord = 2): TLC completes the search and prints every    *)
+(* reachable state in which a file starts in the middle of a frame, with what the      *)
+(* per-file readers and the search make of an otherwise intact log                     *)
+SplitWitness == FilesStartAtFrame(w) \/
+   PrintT(<<"SPLIT", hist, "files read alone", [f \in 1..NFiles(w) |-> <<ReadFile(w, f).ids, ReadFile(w, f).end>>],
+            "group read", ReadAll(w).ids, ReadAll(w).end,
+            "strict search errs for", {h \in Heights : \E r \in Search(w, h, FALSE) : r.t = "err"}>>)
+
 (* a synced write leaves nothing in the buffer *)
-SyncIsDurable == [][hist' # hist /\ hist'[Len(hist')][1] = "ws" /\ hist'[Len(hist')][4] = "ok" => w'.buf = <<>>]_vars
+LastAct == hist'[Len(hist')]
+SyncIsDurable == [][(hist' # hist /\ ((LastAct[1] = "ws" /\ LastAct[4] = "ok") \/ LastAct[1] = "wst")) => w'.buf = <<>>]_vars
 
 (***************************** what the driver compares ***********************)
 Outcome(s, r) ==
